@@ -17,6 +17,8 @@ import z3
 from . import prep
 
 VERIF = prep.VERIF
+# evidence goes to /verif/evidence; tools/seedtest.sh redirects it so that runs against seeded changes never overwrite it
+EVDIR = os.environ.get('VERIF_EVIDENCE_DIR', os.path.join(VERIF, 'evidence'))
 
 
 def log(*a):
@@ -234,7 +236,7 @@ class Check:
         by_role = collections.OrderedDict()
         for c in self.candidates:
             by_role.setdefault(c.get('role', c['obligation']), []).append(c)
-        os.makedirs(os.path.join(VERIF, 'evidence', 'replays'), exist_ok=True)
+        os.makedirs(os.path.join(EVDIR, 'replays'), exist_ok=True)
         for role, cs in by_role.items():
             # several path classes may violate the same obligation; some need an environment fault that cannot be provoked
             # natively.  Try a few of them (those the spec prefers first) until one reproduces.
@@ -272,7 +274,7 @@ class Check:
                 self.inconclusive.append('counterexample for %s did not reproduce natively (%s): %s' % (role, detail, c.get('what')))
                 continue
             k = match_known(self.known, self.pid, role)
-            rp = os.path.join(VERIF, 'evidence', 'replays', '%s-%s.json' % (self.pid, safe(role)))
+            rp = os.path.join(EVDIR, 'replays', '%s-%s.json' % (self.pid, safe(role)))
             with open(rp, 'w') as fh:
                 json.dump(jsonable(c), fh, indent=1)
             if k is not None:
@@ -339,7 +341,7 @@ class Check:
             },
             'assumptions': self.assumptions,
         }
-        os.makedirs(os.path.join(VERIF, 'evidence'), exist_ok=True)
+        os.makedirs(EVDIR, exist_ok=True)
         ev = jsonable(ev)
         try:
             import jsonschema
@@ -348,7 +350,7 @@ class Check:
                 jsonschema.validate(ev, json.load(open(sch)))
         except ImportError:
             pass
-        with open(os.path.join(VERIF, 'evidence', self.pid + '.json'), 'w') as fh:
+        with open(os.path.join(EVDIR, self.pid + '.json'), 'w') as fh:
             json.dump(ev, fh, indent=1, sort_keys=False)
 
 
